@@ -273,6 +273,10 @@ impl<F: Float, D: Data<Elem = F>> PredictInplace<ArrayBase<D, Ix2>, Array1<F>>
                     } else {
                         y[i] = y_min;
                     }
+                } else {
+                    // only a NaN query compares false with every regressor value: its
+                    // prediction is NaN, not whatever the target buffer held before
+                    y[i] = F::nan();
                 }
             }
         }
